@@ -42,8 +42,11 @@ Clause map (theorem ↦ clause; what is *judged* on the implementation's streams
   used + free = allocated ≤ limit after a reset, acquire fails only when `is_empty`);
   `pool_flag_prepare`, `pool_flag_abandon` (= pool_flag: the two transitions that kill or drop an
   in-progress state set `did_exceed_match_limit`).
-  OPEN: `heap_inv` as a theorem (sift_up/sift_down/pop/erase/heapify preserve `IsHeap`) — the heap
-  property is *judged* (`isHeapB`) after every operation of the unit-level scripts instead.
+  `heap_inv` (after ANY history of push / lazy heapify / pop / erase(i) / consume from the empty
+  array the first `heapSize` slots are a heap: `siftUp_heap`, `siftDown_heap`, `heapify_heap`,
+  `push_heap`, `pop_heap`, `erase_heap`, `consume_heap`, `applyOp_inv`), `heap_pop_min` (after any
+  history + heapify nothing precedes index 0).  The same `applyOp` is what the driver runs against
+  the real functions, and `isHeapB` is still judged after every operation.
 * quantifier algebra (feeds C05): `quantifier_add_sound/least`, `quantifier_join_sound/least`,
   `quantifier_mul_sound/least`.
 
@@ -725,6 +728,502 @@ theorem pool_flag_abandon (c : CursorPool) (victim : Option Nat) :
 /-- Non-vacuity: with a pool of one list in use by state 0, state 1 steals it: state 0 dies, flag set. -/
 example : (prepareToCapture ⟨⟨[true], 0, 1⟩, [⟨some 0, false⟩, ⟨none, false⟩], false⟩ 1 (some 0) none) =
     (⟨⟨[true], 0, 1⟩, [⟨none, true⟩, ⟨some 0, false⟩], true⟩, true) := by decide
+
+
+
+/-! ## heap_inv: the heap operations preserve the heap property -/
+
+theorem swapAt_size (a : Array FS) (i j : Nat) : (swapAt a i j).size = a.size := by
+  simp [swapAt]
+
+theorem swapAt_get (a : Array FS) (i j k : Nat) (hi : i < a.size) (hj : j < a.size) :
+    (swapAt a i j)[k]! = if k = j then a[i]! else if k = i then a[j]! else a[k]! := by
+  unfold swapAt
+  simp only [Array.set!_eq_setIfInBounds, getElem!_def, Array.getElem?_setIfInBounds, Array.size_setIfInBounds]
+  by_cases h1 : k = j
+  · subst h1; simp [hj]
+  · by_cases h2 : k = i
+    · subst h2; simp [hi, h1, Ne.symm h1]
+    · simp [h1, h2, Ne.symm h1, Ne.symm h2]
+
+/-- `x` is not after `y` in the heap order. -/
+def le (x y : FS) : Prop := precedes y x = false
+
+theorem le_refl (x : FS) : le x x := precedes_irrefl x
+theorem le_trans {x y z : FS} (h1 : le x y) (h2 : le y z) : le x z := precedes_negtrans _ _ _ h2 h1
+theorem le_of_precedes {x y : FS} (h : precedes x y = true) : le x y := by
+  unfold le
+  cases h' : precedes y x
+  · rfl
+  · have := precedes_trans _ _ _ h h'
+    rw [precedes_irrefl] at this
+    cases this
+
+/-- Everything is in heap order except possibly the edge above `i`; and the children of `i` are
+already in order with `i`'s parent (the invariant of `finished_state_sift_up`). -/
+def UpInv (a : Array FS) (n i : Nat) : Prop :=
+  (∀ j, 0 < j → j < n → j ≠ i → le a[(j - 1) / 2]! a[j]!) ∧
+  (∀ j, 0 < j → j < n → (j - 1) / 2 = i → 0 < i → le a[(i - 1) / 2]! a[j]!)
+
+theorem siftUp_size : ∀ (fuel : Nat) (a : Array FS) (i : Nat), (siftUp fuel a i).size = a.size
+  | 0, a, i => rfl
+  | fuel + 1, a, i => by
+    unfold siftUp
+    split
+    · rfl
+    · simp only
+      split
+      · rw [siftUp_size fuel, swapAt_size]
+      · rfl
+
+theorem siftUp_heap : ∀ (fuel : Nat) (a : Array FS) (n i : Nat), i < fuel → i < n → n ≤ a.size →
+    UpInv a n i → IsHeap (siftUp fuel a i) n
+  | 0, a, n, i, hf, _, _, _ => by omega
+  | fuel + 1, a, n, i, hf, hin, hn, hinv => by
+    obtain ⟨h1, h2⟩ := hinv
+    unfold siftUp
+    by_cases h0 : i = 0
+    · rw [if_pos h0]
+      intro j hj hjn
+      exact h1 j hj hjn (by omega)
+    · rw [if_neg h0]
+      simp only
+      have hp : (i - 1) / 2 < i := by omega
+      by_cases hpre : precedes a[i]! a[(i - 1) / 2]! = true
+      · rw [if_pos hpre]
+        have hi_sz : i < a.size := by omega
+        have hp_sz : (i - 1) / 2 < a.size := by omega
+        apply siftUp_heap fuel _ n ((i - 1) / 2) (by omega) (by omega) (by rw [swapAt_size]; exact hn)
+        have hlt := le_of_precedes hpre
+        constructor
+        · intro j hj hjn hjp
+          rw [swapAt_get a i _ _ hi_sz hp_sz, swapAt_get a i _ _ hi_sz hp_sz]
+          by_cases hji : j = i
+          · subst hji
+            simp only [if_pos rfl, if_neg hjp, if_pos rfl]
+            exact hlt
+          · rw [if_neg hjp, if_neg hji]
+            by_cases hpj1 : (j - 1) / 2 = (i - 1) / 2
+            · rw [if_pos hpj1]
+              have := h1 j hj hjn hji
+              rw [hpj1] at this
+              exact le_trans hlt this
+            · rw [if_neg hpj1]
+              by_cases hpj2 : (j - 1) / 2 = i
+              · rw [if_pos hpj2]
+                exact h2 j hj hjn hpj2 (by omega)
+              · rw [if_neg hpj2]
+                exact h1 j hj hjn hji
+        · intro j hj hjn hpj hp0
+          have hpp : ((i - 1) / 2 - 1) / 2 < (i - 1) / 2 := by omega
+          rw [swapAt_get a i _ _ hi_sz hp_sz, swapAt_get a i _ _ hi_sz hp_sz]
+          rw [if_neg (by omega), if_neg (by omega)]
+          have hpar := h1 ((i - 1) / 2) hp0 (by omega) (by omega)
+          by_cases hji : j = i
+          · subst hji
+            rw [if_neg (by omega), if_pos rfl]
+            exact hpar
+          · rw [if_neg (by omega), if_neg hji]
+            have := h1 j hj hjn hji
+            rw [hpj] at this
+            exact le_trans hpar this
+      · rw [if_neg hpre]
+        intro j hj hjn
+        by_cases hji : j = i
+        · subst hji
+          cases hh : precedes a[j]! a[(j - 1) / 2]!
+          · rfl
+          · exact absurd hh hpre
+        · exact h1 j hj hjn hji
+
+
+theorem upInv_of_heap (a : Array FS) (hs : Nat) (h : IsHeap a hs) : UpInv a (hs + 1) hs := by
+  constructor
+  · intro j hj hjn hne
+    exact h j hj (by omega)
+  · intro j hj hjn hp _
+    omega
+
+/-- `heap_inv` (push / lazy heapify): `ts_query_cursor__heapify_finished_states` turns an array
+whose first `hs` slots are a heap into a heap of the whole array — whatever was pushed behind the
+boundary in the meantime. -/
+theorem heapify_heap : ∀ (fuel : Nat) (a : Array FS) (hs : Nat), IsHeap a hs → hs ≤ a.size →
+    a.size - hs ≤ fuel →
+    IsHeap (heapify fuel a hs).1 (heapify fuel a hs).1.size ∧ (heapify fuel a hs).2 = (heapify fuel a hs).1.size ∧
+    (heapify fuel a hs).1.size = a.size
+  | 0, a, hs, h, hle, hf => by
+    have : hs = a.size := by omega
+    subst this
+    simp [heapify, h]
+  | fuel + 1, a, hs, h, hle, hf => by
+    unfold heapify
+    by_cases hlt : hs < a.size
+    · rw [if_pos hlt]
+      have hh := siftUp_heap a.size a (hs + 1) hs hlt (by omega) (by omega) (upInv_of_heap a hs h)
+      have hsz := siftUp_size a.size a hs
+      have ih := heapify_heap fuel (siftUp a.size a hs) (hs + 1) hh (by omega) (by omega)
+      rw [hsz] at ih
+      exact ih
+    · rw [if_neg hlt]
+      have : hs = a.size := by omega
+      subst this
+      simp [h]
+
+/-- Pushing behind the heap boundary (plain `array_push`) keeps the heap prefix. -/
+theorem push_heap (a : Array FS) (x : FS) (hs : Nat) (h : IsHeap a hs) (hle : hs ≤ a.size) :
+    IsHeap (a.push x) hs := by
+  intro j hj hjn
+  have := h j hj hjn
+  have h1 : (a.push x)[j]! = a[j]! := by
+    simp [getElem!_def, Array.getElem?_push, show j ≠ a.size by omega]
+  have h2 : (a.push x)[(j - 1) / 2]! = a[(j - 1) / 2]! := by
+    simp [getElem!_def, Array.getElem?_push, show (j - 1) / 2 ≠ a.size by omega]
+  rw [h1, h2]; exact this
+
+
+/-- Everything is in heap order except possibly the edges below `i`; and the children of `i` are
+in order with `i`'s parent (the invariant of `finished_state_sift_down`). -/
+def DownInv (a : Array FS) (n i : Nat) : Prop :=
+  (∀ j, 0 < j → j < n → (j - 1) / 2 ≠ i → le a[(j - 1) / 2]! a[j]!) ∧
+  (∀ j, 0 < j → j < n → (j - 1) / 2 = i → 0 < i → le a[(i - 1) / 2]! a[j]!)
+
+theorem siftDown_size : ∀ (fuel : Nat) (a : Array FS) (i : Nat), (siftDown fuel a i).size = a.size
+  | 0, a, i => rfl
+  | fuel + 1, a, i => by
+    unfold siftDown
+    simp only
+    split
+    · rfl
+    · rw [siftDown_size fuel, swapAt_size]
+
+theorem not_precedes_le {x y : FS} (h : ¬ precedes x y = true) : le y x := by
+  unfold le; cases hh : precedes x y
+  · rfl
+  · exact absurd hh h
+
+theorem siftDown_heap : ∀ (fuel : Nat) (a : Array FS) (i : Nat), a.size - i ≤ fuel → i < a.size →
+    DownInv a a.size i → IsHeap (siftDown fuel a i) a.size
+  | 0, a, i, hf, hi, _ => by omega
+  | fuel + 1, a, i, hf, hi, hinv => by
+    obtain ⟨h1, h2⟩ := hinv
+    unfold siftDown
+    simp only
+    -- the two selection steps of the C code
+    by_cases hL : (2 * i + 1 < a.size && precedes a[2 * i + 1]! a[i]!) = true
+    · -- left child precedes i
+      have hL0 := hL
+      simp only [Bool.and_eq_true, decide_eq_true_eq] at hL
+      obtain ⟨hLs, hLp⟩ := hL
+      by_cases hR : (2 * i + 2 < a.size && precedes a[2 * i + 2]! a[2 * i + 1]!) = true
+      · -- s = right
+        have hs : smallest a i = 2 * i + 2 := by unfold smallest; simp only; rw [if_pos hL0, if_pos hR]
+        rw [hs]
+        simp only [Bool.and_eq_true, decide_eq_true_eq] at hR
+        obtain ⟨hRs, hRp⟩ := hR
+        rw [if_neg (by simp; omega)]
+        have hsi : le a[2 * i + 2]! a[i]! := le_trans (le_of_precedes hRp) (le_of_precedes hLp)
+        have hst : le a[2 * i + 2]! a[2 * i + 1]! := le_of_precedes hRp
+        have := siftDown_heap fuel (swapAt a i (2 * i + 2)) (2 * i + 2) (by rw [swapAt_size]; omega)
+          (by rw [swapAt_size]; exact hRs) ?_
+        · rw [swapAt_size] at this; exact this
+        · rw [swapAt_size]
+          constructor
+          · intro j hj hjn hpj
+            rw [swapAt_get a i _ _ hi hRs, swapAt_get a i _ _ hi hRs]
+            by_cases hjs : j = 2 * i + 2
+            · subst hjs
+              rw [if_pos rfl, if_neg (by omega), if_pos (by omega)]; exact hsi
+            · rw [if_neg hjs, if_neg hpj]
+              by_cases hji : j = i
+              · subst hji
+                rw [if_pos rfl, if_neg (by omega)]
+                exact h2 (2 * j + 2) (by omega) hRs (by omega) hj
+              · rw [if_neg hji]
+                by_cases hpi : (j - 1) / 2 = i
+                · rw [if_pos hpi]
+                  have : j = 2 * i + 1 := by omega
+                  subst this; exact hst
+                · rw [if_neg hpi]; exact h1 j hj hjn hpi
+          · intro j hj hjn hpj _
+            rw [swapAt_get a i _ _ hi hRs, swapAt_get a i _ _ hi hRs]
+            rw [if_neg (by omega), if_pos (by omega), if_neg (by omega), if_neg (by omega)]
+            have := h1 j hj hjn (by omega)
+            rw [hpj] at this; exact this
+      · -- s = left
+        have hs : smallest a i = 2 * i + 1 := by unfold smallest; simp only; rw [if_pos hL0, if_neg hR]
+        rw [hs]
+        rw [if_neg (by simp; omega)]
+        have hsi : le a[2 * i + 1]! a[i]! := le_of_precedes hLp
+        have := siftDown_heap fuel (swapAt a i (2 * i + 1)) (2 * i + 1) (by rw [swapAt_size]; omega)
+          (by rw [swapAt_size]; exact hLs) ?_
+        · rw [swapAt_size] at this; exact this
+        · rw [swapAt_size]
+          constructor
+          · intro j hj hjn hpj
+            rw [swapAt_get a i _ _ hi hLs, swapAt_get a i _ _ hi hLs]
+            by_cases hjs : j = 2 * i + 1
+            · subst hjs
+              rw [if_pos rfl, if_neg (by omega), if_pos (by omega)]; exact hsi
+            · rw [if_neg hjs, if_neg hpj]
+              by_cases hji : j = i
+              · subst hji
+                rw [if_pos rfl, if_neg (by omega)]
+                exact h2 (2 * j + 1) (by omega) hLs (by omega) hj
+              · rw [if_neg hji]
+                by_cases hpi : (j - 1) / 2 = i
+                · rw [if_pos hpi]
+                  have hj2 : j = 2 * i + 2 := by omega
+                  subst hj2
+                  simp only [Bool.and_eq_true, decide_eq_true_eq, not_and] at hR
+                  exact not_precedes_le (hR hjn)
+                · rw [if_neg hpi]; exact h1 j hj hjn hpi
+          · intro j hj hjn hpj _
+            rw [swapAt_get a i _ _ hi hLs, swapAt_get a i _ _ hi hLs]
+            rw [if_neg (by omega), if_pos (by omega), if_neg (by omega), if_neg (by omega)]
+            have := h1 j hj hjn (by omega)
+            rw [hpj] at this; exact this
+    · -- left child does not precede i
+      by_cases hR : (2 * i + 2 < a.size && precedes a[2 * i + 2]! a[i]!) = true
+      · -- s = right
+        have hs : smallest a i = 2 * i + 2 := by unfold smallest; simp only; rw [if_neg hL, if_pos hR]
+        rw [hs]
+        simp only [Bool.and_eq_true, decide_eq_true_eq] at hR
+        obtain ⟨hRs, hRp⟩ := hR
+        rw [if_neg (by simp; omega)]
+        have hsi : le a[2 * i + 2]! a[i]! := le_of_precedes hRp
+        have hLs : 2 * i + 1 < a.size := by omega
+        have hil : le a[i]! a[2 * i + 1]! := by
+          simp only [Bool.and_eq_true, decide_eq_true_eq, not_and] at hL
+          exact not_precedes_le (hL hLs)
+        have := siftDown_heap fuel (swapAt a i (2 * i + 2)) (2 * i + 2) (by rw [swapAt_size]; omega)
+          (by rw [swapAt_size]; exact hRs) ?_
+        · rw [swapAt_size] at this; exact this
+        · rw [swapAt_size]
+          constructor
+          · intro j hj hjn hpj
+            rw [swapAt_get a i _ _ hi hRs, swapAt_get a i _ _ hi hRs]
+            by_cases hjs : j = 2 * i + 2
+            · subst hjs
+              rw [if_pos rfl, if_neg (by omega), if_pos (by omega)]; exact hsi
+            · rw [if_neg hjs, if_neg hpj]
+              by_cases hji : j = i
+              · subst hji
+                rw [if_pos rfl, if_neg (by omega)]
+                exact h2 (2 * j + 2) (by omega) hRs (by omega) hj
+              · rw [if_neg hji]
+                by_cases hpi : (j - 1) / 2 = i
+                · rw [if_pos hpi]
+                  have : j = 2 * i + 1 := by omega
+                  subst this; exact le_trans hsi hil
+                · rw [if_neg hpi]; exact h1 j hj hjn hpi
+          · intro j hj hjn hpj _
+            rw [swapAt_get a i _ _ hi hRs, swapAt_get a i _ _ hi hRs]
+            rw [if_neg (by omega), if_pos (by omega), if_neg (by omega), if_neg (by omega)]
+            have := h1 j hj hjn (by omega)
+            rw [hpj] at this; exact this
+      · -- s = i: nothing below precedes i
+        have hs : smallest a i = i := by unfold smallest; simp only; rw [if_neg hL, if_neg hR]
+        rw [hs, if_pos (by simp)]
+        intro j hj hjn
+        by_cases hpi : (j - 1) / 2 = i
+        · simp only [Bool.and_eq_true, decide_eq_true_eq, not_and] at hL hR
+          have hcase : j = 2 * i + 1 ∨ j = 2 * i + 2 := by omega
+          rcases hcase with hc | hc
+          · subst hc; rw [hpi]
+            cases hh : precedes a[2 * i + 1]! a[i]!
+            · rfl
+            · exact absurd hh (hL hjn)
+          · subst hc; rw [hpi]
+            cases hh : precedes a[2 * i + 2]! a[i]!
+            · rfl
+            · exact absurd hh (hR hjn)
+        · exact h1 j hj hjn hpi
+
+
+theorem get_set (a : Array FS) (i : Nat) (x : FS) (j : Nat) (hj : j ≠ i) : (a.set! i x)[j]! = a[j]! := by
+  simp [getElem!_def, Array.getElem?_setIfInBounds, Ne.symm hj]
+
+theorem get_pop (a : Array FS) (j : Nat) (hj : j < a.size - 1) : a.pop[j]! = a[j]! := by
+  have h1 : j < a.pop.size := by simp; exact hj
+  have h2 : j < a.size := by omega
+  simp [getElem!_def, Array.getElem?_pop, hj, Array.getElem?_eq_getElem h2]
+
+/-- `heap_inv` (consume): after `next_capture` advanced the root's consumed count (its key grew),
+`finished_state_sift_down(0)` restores the heap. -/
+theorem consume_heap (a : Array FS) (x : FS) (h : IsHeap a a.size) (h0 : 0 < a.size) :
+    IsHeap (siftDown a.size (a.set! 0 x) 0) a.size := by
+  have hsz : (a.set! 0 x).size = a.size := by simp
+  have := siftDown_heap a.size (a.set! 0 x) 0 (by rw [hsz]; omega) (by rw [hsz]; exact h0) ?_
+  · rw [hsz] at this; exact this
+  · rw [hsz]
+    constructor
+    · intro j hj hjn hp
+      rw [get_set a 0 x j (by omega), get_set a 0 x _ hp]
+      exact h j hj hjn
+    · intro j _ _ _ h00; omega
+
+/-- `heap_inv` (pop): `finished_state_pop` keeps the heap. -/
+theorem pop_heap (a : Array FS) (h : IsHeap a a.size) : IsHeap (heapPop a) (heapPop a).size := by
+  unfold heapPop
+  by_cases h0 : a.size = 0
+  · rw [if_pos h0]; exact h
+  · rw [if_neg h0]
+    simp only
+    by_cases h1 : a.size > 1
+    · -- root replaced by the last element
+      rw [if_pos h1]
+      have hsz : ((a.set! 0 a[a.size - 1]!).pop).size = a.size - 1 := by simp
+      rw [if_pos (by rw [hsz]; omega)]
+      have hd : DownInv (a.set! 0 a[a.size - 1]!).pop (a.size - 1) 0 := by
+        constructor
+        · intro j hj hjn hp
+          rw [get_pop _ j (by simp; omega), get_pop _ _ (by simp; omega),
+            get_set a 0 _ j (by omega), get_set a 0 _ _ hp]
+          exact h j hj (by omega)
+        · intro j _ _ _ h00; omega
+      have := siftDown_heap ((a.set! 0 a[a.size - 1]!).pop).size ((a.set! 0 a[a.size - 1]!).pop) 0 (by omega) (by rw [hsz]; omega) (by rw [hsz]; exact hd)
+      rw [siftDown_size, hsz]
+      rw [hsz] at this
+      exact this
+    · rw [if_neg h1]
+      have hsz : a.pop.size = 0 := by simp; omega
+      rw [if_neg (by rw [hsz]; omega)]
+      intro j hj hjn
+      rw [hsz] at hjn; omega
+
+
+theorem get_set_self (a : Array FS) (i : Nat) (x : FS) (hi : i < a.size) : (a.set! i x)[i]! = x := by
+  simp [getElem!_def, Array.getElem?_setIfInBounds, hi]
+
+/-- `heap_inv` (erase): `finished_state_erase` (used by `next_match` and `remove_match`) keeps the heap. -/
+theorem erase_heap (a : Array FS) (i : Nat) (h : IsHeap a a.size) :
+    IsHeap (heapErase a i) (heapErase a i).size := by
+  unfold heapErase
+  by_cases h0 : i ≥ a.size
+  · rw [if_pos h0]; exact h
+  · rw [if_neg h0]
+    by_cases h1 : i = a.size - 1
+    · rw [if_pos h1]
+      intro j hj hjn
+      have hs : a.pop.size = a.size - 1 := by simp
+      rw [hs] at hjn
+      rw [get_pop a j hjn, get_pop a _ (by omega)]
+      exact h j hj (by omega)
+    · rw [if_neg h1]
+      simp only
+      have hi : i < a.size - 1 := by omega
+      have hsz : ((a.set! i a[a.size - 1]!).pop).size = a.size - 1 := by simp
+      -- reading the array after the replacement
+      have hb : ∀ j, j < a.size - 1 → ((a.set! i a[a.size - 1]!).pop)[j]! = if j = i then a[a.size - 1]! else a[j]! := by
+        intro j hj
+        rw [get_pop _ j (by simp; exact hj)]
+        by_cases hji : j = i
+        · subst hji; rw [if_pos rfl]; exact get_set_self a j _ (by omega)
+        · rw [if_neg hji]; exact get_set a i _ j hji
+      generalize hbdef : (a.set! i a[a.size - 1]!).pop = b at *
+      by_cases hup : (decide (i > 0) && precedes b[i]! b[(i - 1) / 2]!) = true
+      · rw [if_pos hup]
+        simp only [Bool.and_eq_true, decide_eq_true_eq] at hup
+        obtain ⟨hi0, hpre⟩ := hup
+        rw [hb i hi, if_pos rfl, hb _ (by omega), if_neg (by omega)] at hpre
+        have hlp : le a[a.size - 1]! a[(i - 1) / 2]! := le_of_precedes hpre
+        have hpi : le a[(i - 1) / 2]! a[i]! := h i hi0 (by omega)
+        rw [siftUp_size, hsz]
+        apply siftUp_heap (a.size - 1) b (a.size - 1) i hi hi (by rw [hsz]; omega)
+        constructor
+        · intro j hj hjn hji
+          rw [hb j hjn, if_neg hji, hb _ (by omega)]
+          by_cases hp : (j - 1) / 2 = i
+          · rw [if_pos hp]
+            have hij : le a[i]! a[j]! := by have := h j hj (by omega); rw [hp] at this; exact this
+            exact le_trans hlp (le_trans hpi hij)
+          · rw [if_neg hp]; exact h j hj (by omega)
+        · intro j hj hjn hp _
+          rw [hb j hjn, if_neg (by omega), hb _ (by omega), if_neg (by omega)]
+          have hij : le a[i]! a[j]! := by have := h j hj (by omega); rw [hp] at this; exact this
+          exact le_trans hpi hij
+      · rw [if_neg hup]
+        rw [siftDown_size, hsz]
+        have := siftDown_heap b.size b i (by omega) (by rw [hsz]; exact hi) ?_
+        · rw [hsz] at this; exact this
+        · rw [hsz]
+          constructor
+          · intro j hj hjn hp
+            rw [hb j hjn, hb _ (by omega), if_neg hp]
+            by_cases hji : j = i
+            · subst hji
+              rw [if_pos rfl]
+              simp only [Bool.and_eq_true, decide_eq_true_eq, not_and] at hup
+              have := hup hj
+              rw [hb j hi, if_pos rfl, hb _ (by omega), if_neg (by omega)] at this
+              exact not_precedes_le this
+            · rw [if_neg hji]; exact h j hj (by omega)
+          · intro j hj hjn hp hi0
+            rw [hb j hjn, if_neg (by omega), hb _ (by omega), if_neg (by omega)]
+            have hpi : le a[(i - 1) / 2]! a[i]! := h i hi0 (by omega)
+            have hij : le a[i]! a[j]! := by have := h j hj (by omega); rw [hp] at this; exact this
+            exact le_trans hpi hij
+
+
+/-- The invariant of `finished_states`: the first `heapSize` slots are a heap. -/
+def HeapInv (st : Array FS × Nat) : Prop := IsHeap st.1 st.2 ∧ st.2 ≤ st.1.size
+
+theorem consumeRoot_heap (a : Array FS) (h : IsHeap a a.size) : IsHeap (consumeRoot a) a.size ∧ (consumeRoot a).size = a.size := by
+  unfold consumeRoot
+  by_cases h0 : a.size > 0
+  · rw [if_pos h0]
+    simp only
+    refine ⟨consume_heap a _ h h0, ?_⟩
+    rw [siftDown_size]; simp
+  · rw [if_neg h0]; exact ⟨h, rfl⟩
+
+/-- `heap_inv`: every operation the cursor performs on `finished_states` keeps the invariant. -/
+theorem applyOp_inv (st : Array FS × Nat) (op : HOp) (h : HeapInv st) : HeapInv (applyOp st op) := by
+  obtain ⟨hh, hle⟩ := h
+  have hz := heapify_heap (st.1.size + 1) st.1 st.2 hh hle (by omega)
+  cases op with
+  | push x =>
+    exact ⟨push_heap st.1 x st.2 hh hle, by simp [applyOp]; omega⟩
+  | heapify =>
+    unfold applyOp
+    exact ⟨by rw [hz.2.1]; exact hz.1, by rw [hz.2.1]; exact Nat.le_refl _⟩
+  | pop =>
+    unfold applyOp
+    exact ⟨pop_heap _ hz.1, Nat.le_refl _⟩
+  | erase i =>
+    unfold applyOp
+    exact ⟨erase_heap _ i hz.1, Nat.le_refl _⟩
+  | consume =>
+    unfold applyOp
+    simp only
+    have hc := consumeRoot_heap _ hz.1
+    rw [hz.2.1]
+    exact ⟨hc.1, by show _ ≤ (consumeRoot _).size; rw [hc.2]; exact Nat.le_refl _⟩
+
+/-- … hence after any history of pushes, lazy heapifies, pops, erases and consumes, starting from
+the empty array of `ts_query_cursor_exec`. -/
+theorem heap_inv (ops : List HOp) : HeapInv (ops.foldl applyOp (#[], 0)) := by
+  have h0 : HeapInv ((#[], 0) : Array FS × Nat) := ⟨fun j _ hj => by omega, Nat.le_refl _⟩
+  suffices ∀ st, HeapInv st → HeapInv (ops.foldl applyOp st) from this _ h0
+  induction ops with
+  | nil => intro st h; exact h
+  | cons op rest ih => intro st h; exact ih _ (applyOp_inv st op h)
+
+/-- `heap_pop_min` on histories: after any history followed by a heapify, no finished state
+precedes the one at index 0 — `next_capture` always takes a `precedes`-minimum. -/
+theorem heap_pop_min (ops : List HOp) :
+    let st := applyOp (ops.foldl applyOp (#[], 0)) .heapify
+    ∀ i, i < st.1.size → precedes st.1[i]! st.1[0]! = false := by
+  intro st i hi
+  have hinv := applyOp_inv _ .heapify (heap_inv ops)
+  have hz : st.2 = st.1.size := by
+    have := heapify_heap ((ops.foldl applyOp (#[], 0)).1.size + 1) (ops.foldl applyOp (#[], 0)).1
+      (ops.foldl applyOp (#[], 0)).2 (heap_inv ops).1 (heap_inv ops).2 (by omega)
+    exact this.2.1
+  exact heap_root_min st.1 st.2 hinv.1 i (by rw [hz]; exact hi)
+
+example : HeapInv ([HOp.push ⟨0, 0, [5], 0⟩, .push ⟨1, 0, [3], 0⟩, .heapify, .consume].foldl applyOp (#[], 0)) :=
+  heap_inv _
 
 
 end TsVerif.C11
